@@ -751,9 +751,29 @@ def run_tx_program(ctx, name, kind, pre, ops, ending):
     return False, spath, 'agrees'
 
 
+def native_tx_outside(ctx):
+    """reads inside a write transaction layer the own writes over its SNAPSHOT: a write made outside after the transaction began stays invisible to every read method"""
+    k1, k2 = KEYS[0], KEYS[1]
+    for kind in ('single', 'opt'):
+        L = ['dir $DIR/db', f'kind {kind}', 'open workers=0', 'ks a', f'insert a {k1} 31', 'tx t begin', f'tx t get a {k1}', f'insert a {k1} 393939', f'insert a {k2} 3232',
+             f'tx t get a {k1}', f'tx t size_of a {k1}', f'tx t contains_key a {k2}', 'tx t iter a', 'tx t len a', f'tx t insert a {k1} 3535', f'tx t get a {k1}', f'tx t size_of a {k1}', 'tx t iter a', 'tx t rollback', 'close']
+        want = {6: 'some:31', 9: 'some:31', 10: 'some:1', 11: 'false', 12: f'[{k1}:31]', 13: '1', 15: 'some:3535', 16: 'some:2', 17: f'[{k1}:3535]'}
+        spath, out = ctx.run_scenario('\n'.join(L) + '\n', tag=f'tx-outside-{kind}')
+        if any(c == 'CRASH' for _i, c, _r in out):
+            return True, spath, 'crash: ' + out[-1][2][-200:]
+        res = {i: r for i, _c, r in out}
+        for idx, w in want.items():
+            if res.get(idx + 1) != w:
+                return True, spath, f'{kind}: `{L[idx]}` answered {res.get(idx + 1)} after another writer changed the key outside the transaction; the transaction\'s snapshot says {w}'
+    return False, spath, 'outside writes stay invisible'
+
+
 def native_tx(ctx):
     last = (False, None, 'not run')
     n = 0
+    v, path, d = native_tx_outside(ctx)
+    if v:
+        return v, path, d
     for kind in ('single', 'opt'):
         for name, (pre, ops) in tx_programs().items():
             for ending in ('commit', 'rollback', 'drop'):
